@@ -36,6 +36,13 @@ class C18(Check):
 
     def generate(self, rng: random.Random, r: int, tier: str) -> dict:
         ws = G.gen_workspace(rng, roots=(1, 2), defs=(2, 6), p_ref=0.5, p_const=0.5, p_doc=0.3, p_service=0.25, p_pad=0.2)
+        # make sure character constants occur (uint8 constants spelled 'c' are stored as their code point)
+        for r0 in ws["roots"]:
+            for d0 in r0["defs"]:
+                s0 = d0["secs"][0]
+                if rng.random() < 0.4 and not any(it[0] in ("f", "c") and it[2].lower() == "sep" for it in s0["items"]):
+                    ch = rng.choice(",;:aZ09 ~")
+                    s0["items"].append(["c", ["u", 8, rng.choice("st")], "SEP", ("'%s'" % ch) if rng.random() < 0.6 else str(ord(ch)), [ord(ch), 1]])
         hist = []
         for _ in range(rng.randint(10, 25)):
             hist.append([rng.randrange(1 << 16), rng.choice(ACCESSORS), rng.choice(MUTATIONS)])
@@ -102,7 +109,43 @@ class C18(Check):
                 objs.append(("expr/str", pydsdl.String("héllo")))
                 objs.append(("expr/bool", pydsdl.Boolean(True)))
                 return objs
+            # the same model from a different but equivalent spelling of every constant initializer ('a' <-> 97, hex <-> dec)
+            ws3 = copy.deepcopy(scn["ws"])
+            respelled = 0
+            for r0 in ws3["roots"]:
+                for d0 in r0["defs"]:
+                    for s0 in d0["secs"]:
+                        for it in s0["items"]:
+                            if it[0] == "c" and it[1][0] in ("u", "i") and isinstance(it[4], list) and it[4][1] == 1:
+                                v = it[4][0]
+                                if it[3].startswith("'"):
+                                    it[3] = str(v)
+                                elif it[1][0] == "u" and it[1][1] == 8 and 32 <= v < 127 and chr(v) not in "'\\":
+                                    it[3] = "'%s'" % chr(v)
+                                elif v >= 0:
+                                    it[3] = hex(v) if not it[3].startswith("0x") else str(v)
+                                else:
+                                    continue
+                                respelled += 1
+            e = None
+            if respelled:
+                e = Node(ws3)
+                nodes.append(e)
             oa, ob = harvest(a), harvest(b)
+            if e is not None:
+                de = {k: o for k, o in harvest(e)}
+                for k, o in oa:
+                    p = de.get(k)
+                    if p is None or isinstance(o, pydsdl.BitLengthSet):
+                        continue
+                    try:
+                        if not (o == p) or not (p == o):
+                            out.fail("C18.eqhash", "%s: the same model built from an equivalent spelling of a constant is unequal (%s vs %s)" % (k, o, p), "respell-eq:" + type(o).__name__)
+                        elif hash(o) != hash(p):
+                            out.fail("C18.eqhash", "%s: equal objects (%s) built from equivalent spellings of a constant have different hashes" % (k, o), "respell-hash:" + type(o).__name__)
+                    except Exception as ex:
+                        out.fail("C18.eqhash", "%s: ==/hash raised %s" % (k, type(ex).__name__), "eq-raised3")
+                    out.stats["respelled_pairs"] += 1
             da = {k: o for k, o in oa}
             db = {k: o for k, o in ob}
             # (1) hostile client mutation histories on node a's composites
